@@ -232,6 +232,7 @@ class CFG:
                 keys[f[0]] = (key, frozenset(vs), flip)
                 count.setdefault(key, set()).add(f[0])
         self._trk = {e: kv for e, kv in keys.items() if len(count[kv[0]]) >= 2}
+        self._addr_taken = addr_taken
         # definitions: element -> set of decl ids written
         self._defs = {}
         for n in N:
@@ -249,7 +250,63 @@ class CFG:
                 ds.update(dd["d"] for dd in n["decls"])
             if ds:
                 self._defs[n["i"]] = ds
+        # constant assignments to plain locals (flags, result variables, parameters bound to literals by the inliner):
+        # element -> [(decl, constant)]
+        self._cassign = {}
+        for n in N:
+            k = n["k"]
+            if k == "BinaryOperator" and n["op"] == "=":
+                c = fn.strip(n["c"][0])
+                v = fn.cv(n["c"][1])
+                if N[c]["k"] == "DeclRefExpr" and N[c].get("dk") in ("local", "parm") and N[c]["d"] not in addr_taken and v is not None:
+                    self._cassign[n["i"]] = [(N[c]["d"], v)]
+            elif k == "DeclStmt":
+                lst = [(dd["d"], fn.cv(dd["init"])) for dd in n["decls"] if "init" in dd and fn.cv(dd["init"]) is not None and dd["d"] not in addr_taken and not dd.get("static")]
+                if lst:
+                    self._cassign[n["i"]] = lst
+        # plain copies `x = y` / `T x = y` between such locals carry the constant along
+        self._copyassign = {}
+        def plain(i):
+            j = fn.strip(i)
+            m = N[j]
+            return m["d"] if m["k"] == "DeclRefExpr" and m.get("dk") in ("local", "parm") and m["d"] not in addr_taken else None
+        for n in N:
+            k = n["k"]
+            if k == "BinaryOperator" and n["op"] == "=" and n["i"] not in self._cassign:
+                a, b = plain(n["c"][0]), plain(n["c"][1])
+                if a is not None and b is not None and fn.cv(n["c"][1]) is None:
+                    self._copyassign[n["i"]] = [(a, b)]
+            elif k == "DeclStmt":
+                lst = [(dd["d"], plain(dd["init"])) for dd in n["decls"] if "init" in dd and fn.cv(dd["init"]) is None and plain(dd["init"]) is not None and dd["d"] not in addr_taken]
+                if lst:
+                    self._copyassign[n["i"]] = lst
         return self._trk
+
+    def _contradicts(self, consts, e, pol):
+        """does the truth value `pol` of condition e contradict the constants known for plain locals on this path?"""
+        fn = self.fn
+        N = fn.nodes
+        j = fn.strip(e)
+        n = N[j]
+
+        def val(x):
+            x = fn.strip(x)
+            if fn.cv(x) is not None:
+                return fn.cv(x)
+            m = N[x]
+            if m["k"] == "DeclRefExpr" and m.get("d") in consts:
+                return consts[m["d"]]
+            return None
+        if n["k"] == "DeclRefExpr":
+            v = val(j)
+            return v is not None and (v != 0) != pol
+        if n["k"] == "BinaryOperator" and n["op"] in ("==", "!=", "<", "<=", ">", ">="):
+            a, b = val(n["c"][0]), val(n["c"][1])
+            if a is None or b is None:
+                return False
+            r = {"==": a == b, "!=": a != b, "<": a < b, "<=": a <= b, ">": a > b, ">=": a >= b}[n["op"]]
+            return r != pol
+        return False
 
     def _ckey(self, e):
         """spelling-independent identity of a condition: (key, flip) such that two conditions with the same key are
@@ -315,7 +372,7 @@ class CFG:
         n = self._ndefs.get(d, 0)
         return n == 0 if d in self.fn.pids else n <= 1
 
-    def reach(self, starts, avoid=None, edge_ok=None, want_prev=False, init_facts=()):
+    def reach(self, starts, avoid=None, edge_ok=None, want_prev=False, init_facts=(), want_states=False):
         """points reachable from `starts` (each start is included) without executing an element for which
         avoid(node) holds and only along edges for which edge_ok(label, src, dst) holds. Paths that need a tracked
         condition (see _tracked) to be both true and false are not followed."""
@@ -324,9 +381,24 @@ class CFG:
         seen_pts = set()
         seen = set()
         prev = {}
+        states = {}
         dq = deque()
         for s in starts:
             f0 = frozenset(init_facts) if init_facts else (self.facts_at(s) if trk and s != self.entry else frozenset())
+            if not init_facts and s != self.entry and self._cassign and not getattr(self, "_in_entry_states", False):
+                # constants of plain locals that hold on every path from the entry to this start
+                if not hasattr(self, "_entry_states"):
+                    self._in_entry_states = True
+                    try:
+                        self._entry_states = self.reach([self.entry], want_states=True)[1]
+                    finally:
+                        self._in_entry_states = False
+                sts = self._entry_states.get(s, [])
+                if sts:
+                    common = dict(sts[0])
+                    for st_ in sts[1:]:
+                        common = {k_: v_ for k_, v_ in common.items() if st_.get(k_) == v_}
+                    f0 = f0 | {(("const", d_), c_, frozenset((d_,))) for d_, c_ in common.items()}
             st = (s, f0)
             if st not in seen:
                 seen.add(st)
@@ -339,11 +411,24 @@ class CFG:
             e = self.elem_at(p)
             if e is not None and avoid is not None and avoid(e):
                 continue
+            copied = []
+            if e is not None and e in self._copyassign and facts:
+                cur = {x[0][1]: x[1] for x in facts if isinstance(x[0], tuple)}
+                copied = [(d_, cur[s_]) for d_, s_ in self._copyassign[e] if s_ in cur]
             if e is not None and facts and e in defs:
                 ds = defs[e]
                 facts = frozenset(x for x in facts if not (x[2] & ds))
+            if copied:
+                facts = facts | {(("const", d_), c_, frozenset((d_,))) for d_, c_ in copied}
+            if e is not None and e in self._cassign:
+                facts = facts | {(("const", d_), c_, frozenset((d_,))) for d_, c_ in self._cassign[e]}
+            consts = {x[0][1]: x[1] for x in facts if isinstance(x[0], tuple)} if facts else {}
+            if want_states:
+                states.setdefault(p, []).append(consts)
             for q, lab in self.edges.get(p, []):
                 if edge_ok is not None and not edge_ok(lab, p, q):
+                    continue
+                if consts and lab is not None and any(isinstance(e2, int) and self._contradicts(consts, e2, pol2) for e2, pol2 in self.facts(lab)):
                     continue
                 nf = facts
                 if lab is not None and trk:
@@ -362,7 +447,16 @@ class CFG:
                     seen_pts.add(q)
                     prev[q] = p
                 dq.append(st)
+        if want_states:
+            return seen_pts, states
         return (seen_pts, prev) if want_prev else seen_pts
+
+    def const_values(self, starts, node, d, edge_ok=None):
+        """the values the plain local d may hold when `node` executes on a path from `starts`: a set of ints, with None in
+        it when some path leaves the value unknown (flags and result variables assigned constants are followed per path)"""
+        pts, states = self.reach(starts, edge_ok=edge_ok, want_states=True)
+        p = self.pt(node)
+        return {st.get(d) for st in states.get(p, [])} if p in states else set()
 
     def witness(self, prev, goal):
         """list of distinct source lines along the BFS path ending at `goal`"""
